@@ -235,17 +235,23 @@ pub fn spaces(tier: Tier) -> Vec<Space<'static>> {
     sp.push(Space::new("d2", d2.len() as u64, move |i, acc| check_value(&d2[i as usize], acc, true)));
     let d1q: Vec<RVal> = univ::d1q().iter().filter(|v| v.all_finite()).cloned().collect();
     sp.push(Space::new("d1q", d1q.len() as u64, move |i, acc| check_value(&d1q[i as usize], acc, true)));
-    sp.push(Space::new("allcp-value+key", univ::N_CHARS * 2, |i, acc| {
-        let s = univ::nth_char(i / 2).to_string();
-        let v = if i % 2 == 0 {
-            RVal::Arr(vec![RVal::Str(s), RVal::u(1)])
-        } else {
-            let mut m = std::collections::BTreeMap::new();
-            m.insert(s, RVal::u(1));
-            RVal::Obj(m)
+    sp.push(Space::new("allcp-value+key+whole-document", univ::N_CHARS * 3, |i, acc| {
+        let s = univ::nth_char(i / 3).to_string();
+        let v = match i % 3 {
+            0 => RVal::Arr(vec![RVal::Str(s), RVal::u(1)]),
+            1 => {
+                let mut m = std::collections::BTreeMap::new();
+                m.insert(s, RVal::u(1));
+                RVal::Obj(m)
+            }
+            _ => RVal::Str(format!("a{}", s)),
         };
         check_value(&v, acc, true)
     }));
+    {
+        let ss = univ::sstr();
+        sp.push(Space::new("sstr as whole documents", ss.len() as u64, move |i, acc| check_value(&RVal::Str(ss[i as usize].clone()), acc, true)));
+    }
     let ss = univ::sstr();
     sp.push(Space::new("sstr-nested-depth0-3", (ss.len() * ss.len() * 4) as u64, move |i, acc| {
         let i = i as usize;
@@ -263,10 +269,10 @@ pub fn spaces(tier: Tier) -> Vec<Space<'static>> {
     // every string of <= 4 characters over the characters the renderer has to escape or that look
     // like parts of an escape, as a value and as a key
     {
-        const CH: [char; 8] = ['\\', '"', 'a', '/', '\n', '\u{1}', 'é', 'u'];
+        const CH: [char; 9] = ['\\', '"', 'a', '/', '\n', '\u{1}', 'é', 'u', '\u{7f}'];
         let n = CH.len() as u64;
         let total: u64 = (0..=4u32).map(|k| n.pow(k)).sum();
-        sp.push(Space::new("strings: every sequence of <= 4 characters over {\\ \" a / LF U+0001 é u}, as value and key", total, move |idx, acc| {
+        sp.push(Space::new("strings: every sequence of <= 4 characters over {\\ \" a / LF U+0001 é u DEL}, as value, key and whole document", total, move |idx, acc| {
             let mut i = idx;
             let mut len = 0u32;
             let mut c = 1u64;
@@ -282,7 +288,9 @@ pub fn spaces(tier: Tier) -> Vec<Space<'static>> {
             }
             let mut m = std::collections::BTreeMap::new();
             m.insert(s.clone(), RVal::Arr(vec![RVal::Str(s.clone()), RVal::u(1)]));
-            check_value(&RVal::Obj(m), acc, true)
+            check_value(&RVal::Obj(m), acc, true);
+            // and as a document that is just this string
+            check_value(&RVal::Str(s), acc, true)
         }));
     }
     let b = univ::b64_finite();
